@@ -362,6 +362,25 @@ def reordered_pass(run, exe, requests, model, canon, label, isolate, timeout):
                               prev + [q], a[:300], {"answer_of_the_model": model[i][:300]})
     run.corr_cases += len(seq)
     run.extra["reordered_pass_requests"] = run.extra.get("reordered_pass_requests", 0) + len(seq)
+    # ... and concurrently: the same sample dealt out to 8 threads of one process (barrier every 5 calls so that they overlap);
+    # every answer must still be the pure model's - state shared between threads must not show
+    if bad == 0 and len(pure) >= 16:
+        cseq = [requests[i] for i in pure[: run.n(1500, 12000)]]
+        cout = run_stream(exe, cseq, args=["threads", "8", "5"], timeout=min(timeout, 300), isolate=False, mem_bytes=6 << 30)
+        cbad = 0
+        for i, a in zip(pure, cout):
+            if a == "lost":
+                continue
+            q = requests[i]
+            ca, cb = (canon(q, a), canon(q, model[i])) if canon else (a, model[i])
+            if ca != cb:
+                cbad += 1
+                run.corr_disagreements.append({"request": q, "impl": a[:2000], "model": model[i][:2000], "suite": label + " [8 concurrent threads]"})
+                if cbad <= 3:
+                    run.violation("the result of a call differs when other threads use the library at the same time (8 threads; the pure model and the single-threaded run give the other answer)",
+                                  q, a[:300], {"answer_of_the_model": model[i][:300]})
+        run.corr_cases += len(cseq)
+        run.extra["concurrent_pass_requests"] = run.extra.get("concurrent_pass_requests", 0) + len(cseq)
 
 
 def both(run, requests, label, profile="release", isolate=False, canon=None, timeout=1800, compare=True, reorder=True):
